@@ -63,7 +63,7 @@ def build(tier, seed):
         'bounds': {'alphabet': [-1, 0, 1], 'max_len': L, 'dt': dts, 'T_over_dt': Q_RATIO if quick else T_RATIO,
                    'xi': Q_XI if quick else T_XI, 'long_families': fams},
         'required_classes': ['T<6dt', 'T>=6dt', 'T<dt', 'xi=0', 'xi>=0.9', 'leading-zero', 'multi-period', 'long-family',
-                             'entry:response_series', 'entry:nigam', 'entry:object'],
+                             'entry:response_series', 'entry:nigam', 'entry:object', 'entry:object-defaults'],
         'assumptions': ['oracle: 40-digit closed-form per-step solution (mpmath), witnessed by a longdouble evaluation and by the ODE residual',
                         'dt, T/dt and xi only on the finite menus; record values in {-1,0,1}',
                         'errors are normalised by the peak of the exact series; where that fails, by the peak of the exact continuous-time '
@@ -77,6 +77,9 @@ def entry_points(rec, dt, periods, xi):
     yield 'response_series', lambda: sdof.response_series(a, dt, p, xi)
     yield 'nigam', lambda: sdof.nigam_and_jennings_response(list(rec), dt, list(periods), xi)
     yield 'object', lambda: eqsig.AccSignal(a, dt).response_series(response_times=p, xi=xi)
+    if xi == 0.05:
+        # the object's defaults: periods given at construction, damping left at its documented default of 5 %
+        yield 'object-defaults', lambda: eqsig.AccSignal(a, dt, response_times=p).response_series()
 
 
 def run_case(case):
